@@ -40,7 +40,7 @@ PROPS = {
     "C02": dict(lean=["Mav.Props.C02"], groups=[("C02", sizes(120, 3000))],
                 trusted=["x25 step regenerated from pkg/x25/x25.go (G-expr); reader gate model hand-written (TIE-D)"]),
     "C03": dict(lean=["Mav.Props.C03"], groups=[("C03", sizes(1, 1))], table_crosscheck=True,
-                spec_domain=lambda op: op.startswith(("defmsg ", "msgenc ")),
+                spec_domain=lambda op: op.startswith(("defmsg ", "msgenc ", "msgdec ")),
                 trusted=["reflect (struct fields/tags) as seen by the harness; cross-checked against the go/ast tables of tools/extract",
                          "sort.Slice contract (returns a permutation sorted w.r.t. a strict total order)"]),
     "C04": dict(lean=["Mav.Props.C04"], groups=[("C04", sizes(1, 1))],
@@ -85,7 +85,8 @@ PROPS = {
     "C17": dict(lean=["Mav.Props.C17"], groups=[("C17", sizes(1, 1))], table_crosscheck=True, preamble=dialects_preamble,
                 trusted=["published CRC_EXTRA values: the 138-entry table Spec.publishedCrcExtra (common.xml) written down by hand from the published values, plus the spec recipe for the rest"]),
     "C18": dict(lean=["Mav.Props.C18", "Mav.Props.C18b"], groups=[("C18", sizes(60, 1500))],
-                trusted=["encoding/xml, text/template and the Go compiler: the generated package is compiled and its behaviour observed (CRC_EXTRA, sizes, wire order through the VerifLayout hook, constants, dialect version); the abstract definition is rendered to XML by the harness",
+                trusted=["go/build's reading of file names (_test.go, goodOSArchFile, knownOS / knownArch of go1.23-1.26) as transcribed in Mav/Spec/GoTool.lean; the file names written by the real generator are observed on every converted set (op genfiles) and the package is compiled",
+                         "encoding/xml, text/template and the Go compiler: the generated package is compiled and its behaviour observed (CRC_EXTRA, sizes, wire order through the VerifLayout hook, constants, dialect version); the abstract definition is rendered to XML by the harness",
                          "the domain is dialect sets following the MAVLink naming rules: message names [A-Z][A-Z0-9_]*, field names that are identifiers, array lengths 1..255 without leading zeros, payload of at most 255 bytes, enum values below 2^64, enum-typed fields of an integer type"],
                 partial=["proved end to end for messages (generated_message_has_the_spec_layout: every valid abstract message definition, rendered to XML text, generated, accepted by the run-time model, has the order / sizes / CRC_EXTRA the guide assigns to the definition), for message and field names, decimal and a**b enum values and once-only processing of included files; hexadecimal / binary values, the dialect version, the merge of enums across files, the enum text template and the textual XML parser of the specification are decided by differential runs on compiled generated code (random grammar-based sets incl. diamonds, odd names, all value syntaxes), not proved"]),
     "C19": dict(lean=["Mav.Props.C19"], groups=[("C19", sizes(1, 1)), ("C19gen", sizes(20, 300))], preamble=enums_preamble,
